@@ -41,7 +41,7 @@ theorem mcmcStep_eq (env : Env α) (half : α) (m : Machine α) (tape : Tape α)
     let d := decideMove env m.logJoint pr.1 pr.2.1 pr.2.2
     let stateAfter := if d.accepted then pr.1 else setMany pr.1 op.pidx saved
     let logJointAfter := if d.accepted then d.lpValue else m.logJoint
-    let op2 := tune env (if d.accepted then op.onAccept else op.onReject) d.accProb
+    let op2 := tune env (if d.accepted then op.onAccept else op.onReject) d.accProb d.accepted
     mcmcStep env half m tape = some
       ({ state := stateAfter, logJoint := logJointAfter, ops := m.ops.set oi op2,
          epoch := m.epoch + 1,
@@ -95,8 +95,11 @@ theorem degenerate_rejects (env : Env α) (logJoint : α) (prop : Params α) (hr
 def Inv (env : Env α) (m : Machine α) : Prop :=
   env.target m.state = .fin m.logJoint ∧ WF m
 
-theorem tune_pidx (env : Env α) (op : Op α) (a : α) : (tune env op a).pidx = op.pidx := by
-  unfold tune; split <;> rfl
+theorem tune_pidx (env : Env α) (op : Op α) (a : α) (b : Bool) :
+    (tune env op a b).pidx = op.pidx := by
+  unfold tune; split
+  · split <;> rfl
+  · rfl
 
 theorem inv_step (env : Env α) (half : α) (m : Machine α) (tape : Tape α) (hinv : Inv env m)
     (m' : Machine α) (tape' : Tape α) (r : Rec α)
@@ -480,16 +483,19 @@ theorem rm_direction (k : Kind) (x δ : ℝ) (hv : ValidScale k x) (hδ : 0 ≤ 
 
 /-- the environment `MCMCOperator.tune` runs in: generated getters, setters, Robbins–Monro step -/
 noncomputable def genEnv (env : Env ℝ) : Env ℝ :=
-  { env with get := genGet, set := genSet, rm := genRm }
+  { env with get := genGet, set := genSet, rm := genRm, asNew := genAsNew, daStep := genDaStep,
+             daSet := genDaSet }
 
 /-- **tune_never_more_timid**: one call of `tune` with an acceptance probability at or above
 the operator's target never makes its next proposals more timid — every operator kind, every
 admissible scale, every adaptation count; with adaptation disabled the scale does not move. -/
-theorem tune_never_more_timid (env : Env ℝ) (op : Op ℝ) (acc : ℝ)
-    (hv : ValidScale op.kind op.scale) (h : op.target ≤ acc) :
-    Bolder op.kind (tune (genEnv env) op acc).scale op.scale
-      ∧ ValidScale op.kind (tune (genEnv env) op acc).scale := by
+theorem tune_never_more_timid (env : Env ℝ) (op : Op ℝ) (acc : ℝ) (accepted : Bool)
+    (hna : op.adaptors = []) (hv : ValidScale op.kind op.scale) (h : op.target ≤ acc) :
+    Bolder op.kind (tune (genEnv env) op acc accepted).scale op.scale
+      ∧ ValidScale op.kind (tune (genEnv env) op acc accepted).scale := by
   unfold tune
+  rw [hna]
+  simp only [List.isEmpty_nil, ↓reduceIte]
   split
   · refine ⟨?_, hv⟩
     cases op.kind <;> simp [Bolder]
@@ -499,6 +505,95 @@ theorem tune_never_more_timid (env : Env ℝ) (op : Op ℝ) (acc : ℝ)
     have := rm_direction op.kind op.scale _ hv hδ
     rw [show (FromNat.ofNat op.adaptCount : ℝ) = (op.adaptCount : ℝ) from rfl, rm_formula]
     exact this
+
+/-! ### HMC step-size adaptors (`hmc/adaptation.py`) -/
+
+/-- the generated update of `AdaptiveStepSize.learn` -/
+theorem adaptive_eval (step prob tgt count : ℝ) :
+    genAsNew step prob tgt count = Real.exp (Real.log step + (prob - tgt) / (2 + count)) := by
+  simp [genAsNew, adaptiveSet, adaptiveUpd, Expr.eval, envValue, litVal]
+
+/-- **adaptive_step_direction**: one call of `AdaptiveStepSize.learn`, every configuration
+(`use_acceptance_rate` on/off, any `start`/`end` window, any target, any counters): outside its
+window (or before the 10th call in rate mode) the step size does not move; inside, with the
+statistic the configuration uses (running acceptance rate `accepted/calls` including this call,
+or the acceptance probability of this call) at or above target the step size never decreases,
+at or below target it never increases. -/
+theorem adaptive_step_direction (env : Env ℝ) (target step accProb : ℝ) (start : ℕ)
+    (stop : Option ℕ) (useRate : Bool) (calls acc : ℕ) (accepted : Bool) (hs : 0 < step) :
+    let r := (Adaptor.adaptive target start stop useRate calls acc).learn (genEnv env) step accProb
+      accepted
+    let calls' := calls + 1
+    let acc' := acc + (if accepted then 1 else 0)
+    let active := inWindow start stop calls' && (!useRate || decide (10 ≤ calls'))
+    let stat : ℝ := if useRate then (acc' : ℝ) / (calls' : ℝ) else accProb
+    (active = false → r.2 = step) ∧ (active = true → target ≤ stat → step ≤ r.2)
+      ∧ (active = true → stat ≤ target → r.2 ≤ step) ∧ 0 < r.2 := by
+  intro r calls' acc' active stat
+  have hr : r.2 = if active then genAsNew step stat target (calls' : ℝ) else step := by
+    simp only [r, Adaptor.learn, genEnv, active, stat, calls', acc']
+    split <;> simp_all
+  have hpos : (0 : ℝ) < 2 + (calls' : ℝ) := by positivity
+  have key : ∀ d : ℝ, Real.exp (Real.log step + d) = step * Real.exp d := fun d => by
+    rw [Real.exp_add, Real.exp_log hs]
+  refine ⟨fun h => by rw [hr, h]; simp, fun h ht => ?_, fun h ht => ?_, ?_⟩
+  · rw [hr, h]; simp only [↓reduceIte]
+    rw [adaptive_eval, key]
+    have : 1 ≤ Real.exp ((stat - target) / (2 + (calls' : ℝ))) :=
+      Real.one_le_exp (div_nonneg (by linarith) hpos.le)
+    nlinarith
+  · rw [hr, h]; simp only [↓reduceIte]
+    rw [adaptive_eval, key]
+    have : Real.exp ((stat - target) / (2 + (calls' : ℝ))) ≤ 1 := by
+      rw [← Real.exp_zero]
+      exact Real.exp_le_exp.mpr (div_nonpos_of_nonpos_of_nonneg (by linarith) hpos.le)
+    nlinarith
+  · rw [hr]; split
+    · rw [adaptive_eval]; exact Real.exp_pos _
+    · exact hs
+
+/-- the generated `DualAveraging.step`: the new iterate `x` -/
+theorem dual_x_eval (mu gamma kappa t0 counter sbar xbar stat : ℝ) :
+    (genDaStep mu gamma kappa t0 counter sbar xbar stat).2.1
+      = mu - ((1 - 1 / (counter + t0)) * sbar + 1 / (counter + t0) * stat) * Real.sqrt counter / gamma := by
+  simp [genDaStep, dualAssigns, evalAssigns, Expr.eval, litVal]
+
+/-- **dual_avg_monotone**: `DualAveragingStepSize.learn` is monotone in the acceptance statistic
+of the call: from the same adaptor state, a larger acceptance probability never gives a smaller
+step size (inside the window through the averaged statistic; outside it the result does not
+depend on the call's acceptance at all).  As DESIGN 6.C15 says, only this monotonicity is
+claimed for dual averaging: the averaged statistic, not the last acceptance, drives the step. -/
+theorem dual_avg_monotone (env : Env ℝ) (mu gamma kappa t0 delta step a1 a2 : ℝ) (start : ℕ)
+    (stop : Option ℕ) (calls counter : ℕ) (x xbar sbar : ℝ) (b1 b2 : Bool)
+    (hg : 0 < gamma) (ht : 0 < ((counter + 1 : ℕ) : ℝ) + t0) (h : a1 ≤ a2) :
+    ((Adaptor.dual mu gamma kappa t0 delta start stop calls counter x xbar sbar).learn
+        (genEnv env) step a1 b1).2
+      ≤ ((Adaptor.dual mu gamma kappa t0 delta start stop calls counter x xbar sbar).learn
+        (genEnv env) step a2 b2).2 := by
+  simp only [Adaptor.learn, genEnv]
+  split
+  · simp only [genDaSet, trans_exp_real, fromNat_real]
+    apply Real.exp_le_exp.mpr
+    rw [dual_x_eval, dual_x_eval]
+    have heta : 0 < 1 / (((counter + 1 : ℕ) : ℝ) + t0) := by positivity
+    have hsq : 0 ≤ Real.sqrt ((counter + 1 : ℕ) : ℝ) := Real.sqrt_nonneg _
+    have hstat : delta - a2 ≤ delta - a1 := by linarith
+    have h1 : (1 / (((counter + 1 : ℕ) : ℝ) + t0) * (delta - a2)) * Real.sqrt ((counter + 1 : ℕ) : ℝ)
+        ≤ (1 / (((counter + 1 : ℕ) : ℝ) + t0) * (delta - a1)) * Real.sqrt ((counter + 1 : ℕ) : ℝ) :=
+      mul_le_mul_of_nonneg_right (mul_le_mul_of_nonneg_left hstat heta.le) hsq
+    have h2 : ((1 - 1 / (((counter + 1 : ℕ) : ℝ) + t0)) * sbar + 1 / (((counter + 1 : ℕ) : ℝ) + t0) * (delta - a2))
+          * Real.sqrt ((counter + 1 : ℕ) : ℝ) / gamma
+        ≤ ((1 - 1 / (((counter + 1 : ℕ) : ℝ) + t0)) * sbar + 1 / (((counter + 1 : ℕ) : ℝ) + t0) * (delta - a1))
+          * Real.sqrt ((counter + 1 : ℕ) : ℝ) / gamma := by
+      apply div_le_div_of_nonneg_right _ hg.le
+      nlinarith
+    linarith
+  · split
+    · split <;> exact le_refl _
+    · exact le_refl _
+
+/-- non-vacuity: a rate-driven adaptor at its 12th call inside its window -/
+example : (inWindow 5 (some 40) 12 && (!true || decide (10 ≤ 12))) = true := by decide
 
 /-- non-vacuity: a Dirichlet operator at scale 2 told its acceptance was 1 (target 0.24) -/
 example : ValidScale .dirichlet 2 ∧ ((24 : ℝ) / 100 ≤ 1) := by
